@@ -111,3 +111,26 @@ class Dispatch:
 
 def self_call(name: str) -> Callable[[ast.Call], bool]:
     return lambda c: is_method_call(c, name) and path_of(recv_of(c)) == "self"
+
+
+def not_live_edges(g, mvar: str):
+    """Edges of a CFG taken only when module `mvar` is no longer in the manager's table
+    (idempotence / liveness guards such as `self.modules.get(m.conn) is not m`, `m.conn not in self.modules`)."""
+    out = set()
+    lives = [guards.parse(f"self.modules.get({mvar}.conn) is {mvar}"), guards.parse(f"{mvar}.conn in self.modules")]
+    for n in g.nodes:
+        for e in g.succ[n.id]:
+            if e.cond is None:
+                continue
+            for lv in lives:
+                try:
+                    if guards.implies([(e.cond, e.pol)], ast.UnaryOp(op=ast.Not(), operand=lv)):
+                        out.add((e.src, e.dst, e.kind))
+                except AnalysisError:
+                    pass
+    return out
+
+
+def live_follow(g, mvar: str):
+    dead = not_live_edges(g, mvar)
+    return (lambda e: (e.src, e.dst, e.kind) not in dead), dead
